@@ -1605,3 +1605,22 @@ def consts_at_return(fn, starts, local=0, avoid=()):
                     state[s] = m
                     work.append(s)
     return results
+
+
+def same_value_site(a, b):
+    """do two terms denote the same dynamic value, judged by their projection chain down to the producing call SITE
+    (robust against the depth truncation of very large terms, which tkey() treats as unequal)"""
+    for _ in range(64):
+        if a.k != b.k:
+            return False
+        if a.k == "call":
+            return a.a[0] == b.a[0] and a.site is not None and a.site == b.site
+        if a.k in ("field", "downcast"):
+            if a.a[1] != b.a[1]:
+                return False
+            a, b = a.a[0], b.a[0]
+            continue
+        if a.k == "param":
+            return a.a[0] == b.a[0]
+        return tkey(a) == tkey(b)
+    return False
